@@ -1,11 +1,11 @@
 SPECIFICATION Spec
 CONSTANTS
-  Bug = "none"
-  N = 7
-  MaxB = 8
-  MaxD = 4
-  Z = 0
-  Shuffle = FALSE
+  Bug = "unmasked_scatter"
+  N = 5
+  MaxB = 6
+  MaxD = 3
+  Z = 1
+  Shuffle = TRUE
 INVARIANT WrittenAtMostOnce
 INVARIANT WrittenExactlyOnce
 INVARIANT ReadSetRule
